@@ -320,8 +320,9 @@ def rule_escape(chk, fb):
                 if not uses:
                     continue  # text ignored
                 chk.touch(d)
-                ok = len(calls) == 1 and len(uses) == 1
-                chk.ob(rc, "text-consumer:%s#%d" % (d, idx), ok, where="%s:%s" % (h["file"], arm["ln"]), detail="Event::Text bound value used %d time(s), unescaped %d time(s)" % (len(uses), len(calls)))
+                trims = sorted({(c.get("name") or "") for c in hirq.calls(arm["body"]) if (c.get("name") or "").startswith("trim")})
+                ok = len(calls) == 1 and len(uses) == 1 and not trims
+                chk.ob(rc, "text-consumer:%s#%d" % (d, idx), ok, where="%s:%s" % (h["file"], arm["ln"]), detail="Event::Text bound value used %d time(s), unescaped %d time(s)%s" % (len(uses), len(calls), "; the text is trimmed (%s) before it is stored: leading/trailing whitespace of the cell text is lost" % trims if trims else ""))
                 idx += 1
                 n += 1
 
@@ -390,7 +391,22 @@ def rule_key(chk, fb):
         chk.ob(rd, "%s::%s" % (adt.split("::")[-1], fn), not missing, where=fb.loc(d), detail="fields %s; read %s; missing %s" % (sorted(fields), sorted(read), missing))
 
 
+def rule_number_text(chk, fb):
+    re_ = chk.rule(
+        "C01.e",
+        "numbers are rendered from the stored f64 itself: no float-to-integer cast lies on the path from a Numeric cell value to its text (Display of the raw value, value getters)",
+        floor=2,
+    )
+    targets = [d for d, b in fb.mir.items() if b.get("self_ty") in (RAW, CELLVALUE) and (d.endswith("::fmt") or d.split("::")[-1] in ("get_value", "get_value_number", "to_string"))]
+    for d in sorted(targets):
+        b = fb.mir[d]
+        casts = [s for bl in b["blocks"] for s in bl["s"] if s["k"] == "assign" and s["rv"]["k"] == "cast" and s["rv"].get("ck") == "FloatToInt"]
+        chk.touch(d)
+        chk.ob(re_, "%s" % d, not casts, where=fb.loc(d) if not casts else "%s:%s" % (b["file"], casts[0]["ln"]), detail="float-to-int casts on the number-to-text path: %d%s" % (len(casts), " (whole numbers beyond the integer range saturate)" if casts else ""))
+
+
 def run(chk, fb, tier):
+    rule_number_text(chk, fb)
     rule_kind_table(chk, fb)
     rule_escape(chk, fb)
     rule_key(chk, fb)
